@@ -9,15 +9,24 @@
 (* `verif`, CW_MT_VERIF_TRACE) while the REPOSITORY'S OWN test-suite runs: *)
 (* its tests become validated traces although their own assertions never  *)
 (* look at the storage after a failing call.                               *)
+(* Inside a transaction two more hooks note every executed sub-message     *)
+(* (its reply_on and its result) and every call of the reply entry point:  *)
+(* a reply is made exactly for the sub-messages that ask for it, directly  *)
+(* after them, with their id and result (C03: ReplyDiscipline and          *)
+(* RepliesOnlyForSubs of Chain.tla, here on the repository's own tests).   *)
 (***************************************************************************)
 EXTENDS Naturals, Sequences, TLC, Json, IOUtils
 
 Rec == ndJsonDeserialize(IOEnv.TRACE)
 
-VARIABLES l, root, bad
-vars == <<l, root, bad>>
+VARIABLES l, root, bad, prev
+vars == <<l, root, bad, prev>>
 
-Init == l = 1 /\ root = "genesis" /\ bad = <<>>
+NoLine == [ev |-> "none", kind |-> "", ok |-> TRUE, pre |-> "", post |-> ""]
+Init == l = 1 /\ root = "genesis" /\ bad = <<>> /\ prev = NoLine
+
+(* a sub-message asks for a reply *)
+Asks(e) == (e.ok /\ e.kind \in {"success", "always"}) \/ (~e.ok /\ e.kind \in {"error", "always"})
 
 (* the abstract actions *)
 TxOk(post)  == root' = post
@@ -29,8 +38,13 @@ Step ==
     /\ l <= Len(Rec)
     /\ l' = l + 1
     /\ LET e == Rec[l] IN
-       /\ root' = e.post
+       /\ root' = IF e.ev \in {"sub", "reply"} THEN root ELSE e.post
+       /\ prev' = IF e.ev = "reset" THEN NoLine ELSE e
        /\ bad' = IF e.ev = "reset" THEN <<>>
+                 ELSE IF e.ev = "reply" /\ ~(prev.ev = "sub" /\ Asks(prev) /\ prev.pre = e.pre /\ prev.ok = e.ok)
+                 THEN <<"a reply that does not directly follow a sub-message asking for it (id, result)", e.pre, e.ok>>
+                 ELSE IF prev.ev = "sub" /\ Asks(prev) /\ e.ev # "reply"
+                 THEN <<"no reply after a sub-message that asks for one (id, reply_on, result)", prev.pre, prev.kind, prev.ok>>
                  ELSE IF e.ev = "query" /\ e.post # e.pre THEN <<"a query changed the storage", e.kind>>
                  ELSE IF e.ev = "tx" /\ ~e.ok /\ e.post # e.pre THEN <<"a failing transaction changed the storage", e.kind>>
                  ELSE <<>>
